@@ -14,6 +14,8 @@ def run(tier, seed, t0):
     from checks import common_hook as ch
     try:
         cases += ch.cases(PID, seed, tier, 4 if tier != "thorough" else 20)
+        if tier == "thorough":
+            cases += ch.memcheck_cases(PID, seed, 6)
     except vlib.BuildError as e:
         c = vlib.Case(7_000_000); c.engine = "LD_PRELOAD interposition"; c.verdict = "inconclusive"; c.sig = "harness/hook-dylib-build-failed"; c.detail = str(e); cases.append(c)
     if tier == "thorough":
